@@ -68,13 +68,13 @@ func c05Classes(s string) []string {
 // c05One drives one input text through the API matrix.
 func c05One(c *fw.Ctx, apis []c05API, id, s string) {
 	c.Case(id, s, func() {
-		done := fw.WithTimeout(20*time.Second, func() { c05Matrix(c, apis, s) })
+		done := fw.WithTimeout(10*time.Second, func() { c05Matrix(c, apis, s) })
 		if !done {
-			// still running: give it up to 60 s in total on an otherwise idle goroutine before calling it a hang
-			c.Count("slow_over_20s", 1)
-			ok2 := fw.WithTimeout(60*time.Second, func() { c05Matrix(c, apis, s) })
+			// still running: give it another 30 s on a second goroutine before calling it a hang
+			c.Count("slow_over_10s", 1)
+			ok2 := fw.WithTimeout(30*time.Second, func() { c05Matrix(c, apis, s) })
 			if !ok2 {
-				c.Violate(fw.Violation{Key: "hang", What: "reader/printer did not return within 60 s (normal: microseconds)", Detail: fw.GoroutineDump()})
+				c.Violate(fw.Violation{Key: "hang", What: "reader/printer did not return within 10 s and, run again, within 30 s (normal: microseconds)", Detail: fw.GoroutineDump()})
 				c.Runaway()
 			}
 		}
@@ -415,8 +415,8 @@ func init() {
 	fw.Register(&fw.Property{
 		ID:     "C05",
 		Run:    runC05,
-		Rule:   "inputs = every token sequence up to the tier's length over a 26-token alphabet (space-joined and unseparated), every truncation of a window of every .lisp/.mal file under /repo plus hostile single-rune substitutions, seeded random byte/Unicode/nested texts and preamble shapes; each input goes through 9 reader entry points (READ ±cursor ±environment, READWithPreamble, Read_str with empty/filled placeholder map, read-string via EVAL) and PRINT on success, each under recover() and a 20 s/60 s watchdog; distinct = distinct input texts shorter than 40 bytes; in addition Go's coverage-guided fuzzer (FuzzRead, count-based budget) mutates the repository's sources through 7 entry points",
-		Assume: []string{"inputs are at most a few KiB and nested at most 200 deep (host-stack exhaustion on megabytes of '(' is excluded)", "a hang is declared only after 60 s on a re-run; slower-than-20 s cases are counted, not judged"},
+		Rule:   "inputs = every token sequence up to the tier's length over a 26-token alphabet (space-joined and unseparated), every truncation of a window of every .lisp/.mal file under /repo plus hostile single-rune substitutions, seeded random byte/Unicode/nested texts and preamble shapes; each input goes through 9 reader entry points (READ ±cursor ±environment, READWithPreamble, Read_str with empty/filled placeholder map, read-string via EVAL) and PRINT on success, each under recover() and a 10 s/30 s watchdog; distinct = distinct input texts shorter than 40 bytes; in addition Go's coverage-guided fuzzer (FuzzRead, count-based budget) mutates the repository's sources through 7 entry points",
+		Assume: []string{"inputs are at most a few KiB and nested at most 200 deep (host-stack exhaustion on megabytes of '(' is excluded)", "a hang is declared only after 30 s on a re-run; slower-than-10 s cases are counted, not judged"},
 		Finish: func(m *fw.Merged) {
 			c05Fuzz(m)
 			m.Floor("api_calls", 100000)
